@@ -261,9 +261,11 @@ func newLocSys(c map[string]interface{}) (*locSys, error) {
 	return s, nil
 }
 
-func okR(x interface{}) map[string]interface{}  { return map[string]interface{}{"ok": x} }
-func errR(e error) map[string]interface{}       { return map[string]interface{}{"err": errClass(e), "msg": e.Error()} }
-func errS(e string) map[string]interface{}      { return map[string]interface{}{"err": e} }
+func okR(x interface{}) map[string]interface{} { return map[string]interface{}{"ok": x} }
+func errR(e error) map[string]interface{} {
+	return map[string]interface{}{"err": errClass(e), "msg": e.Error()}
+}
+func errS(e string) map[string]interface{} { return map[string]interface{}{"err": e} }
 func asMap(x interface{}) (map[string]interface{}, bool) {
 	m, ok := x.(map[string]interface{})
 	return m, ok
